@@ -326,8 +326,24 @@ def _run_pipeline(tree: ast.Module) -> dict:
     if len(inner_ifs) != 1 or inner_ifs[0].orelse or len(inner_ifs[0].body) != 1:
         fail(fix, "expected `if <dtype of the result> != <dtype of the detector's image>: <cast>`")
     cmp_ = inner_ifs[0].test
+    # `<result dtype> != <detector dtype>`, possibly `and <the result dtype is not an unsigned integer type>`
+    keeps_unsigned = False
+    if isinstance(cmp_, ast.BoolOp) and isinstance(cmp_.op, ast.And) and len(cmp_.values) == 2:
+        parts = [v for v in cmp_.values if isinstance(v, ast.Compare) and len(v.ops) == 1 and isinstance(v.ops[0], ast.NotEq)
+                 and not (isinstance(v.left, ast.Attribute) and v.left.attr == "kind")]
+        if len(parts) != 1:
+            fail(cmp_, "dtype comparison")
+        other = [v for v in cmp_.values if v is not parts[0]][0]
+        res_dt = ast.unparse(parts[0].left)
+        accepted = {f"{res_dt}.kind != 'u'", f"{res_dt}.kind not in 'u'", f"{res_dt}.kind not in ('u',)", f"{res_dt}.kind not in ['u']",
+                    f"not np.issubdtype({res_dt}, np.unsignedinteger)", f"not numpy.issubdtype({res_dt}, numpy.unsignedinteger)"}
+        if ast.unparse(other) not in accepted:
+            fail(other, "second condition of the dtype restoration (expected: the result dtype is not an unsigned integer type)")
+        keeps_unsigned = True
+        cmp_ = parts[0]
     if not (isinstance(cmp_, ast.Compare) and len(cmp_.ops) == 1 and isinstance(cmp_.ops[0], ast.NotEq)):
         fail(cmp_, "dtype comparison")
+    out["fix_keeps_unsigned"] = keeps_unsigned
     lhs, rhs = _resolve(cmp_.left, fenv), _resolve(cmp_.comparators[0], fenv)
     cast = inner_ifs[0].body[0]
     if not (isinstance(cast, ast.Assign) and isinstance(cast.targets[0], ast.Subscript)
@@ -483,7 +499,8 @@ def _da_return(fn: ast.FunctionDef, node: ast.AST, env: dict) -> dict:
     if not isinstance(coords, ast.Dict) or [_const_str(k) for k in coords.keys] != ["y", "x"]:
         fail(c, "coords must be {'y': .., 'x': ..}")
     oy, ox = _origin(coords.values[0], env, "y"), _origin(coords.values[1], env, "x")
-    return dict(dims=dims, origin=(oy, ox), copies=_copies(c.args[0], env), cast=_keeps_dtype(c.args[0], env, fn))
+    # a new DataArray built from a numpy buffer with explicit coords: the y / x coordinates are the given ranges
+    return dict(dims=dims, origin=(oy, ox), copies=_copies(c.args[0], env), cast=_keeps_dtype(c.args[0], env, fn), relabel=True)
 
 
 def _class(tree: ast.Module, name: str) -> ast.ClassDef:
@@ -539,18 +556,37 @@ def _readouts(repo: Path) -> dict:
     if not (isinstance(src, ast.Call) and isinstance(src.func, ast.Attribute) and ast.unparse(src.func.value) == "self._array"):
         fail(src, "3-D branch: the cube must be made from self._array")
     oy = ox = None
-    for st in branch[0].orelse:
-        if isinstance(st, ast.Assign) and isinstance(st.targets[0], ast.Subscript) \
-                and ast.unparse(st.targets[0].value) == f"{cube}.coords":
-            k = _const_str(st.targets[0].slice)
-            if k == "y":
-                oy = _origin(st.value, env, "y")
-            elif k == "x":
-                ox = _origin(st.value, env, "x")
-            else:
-                fail(st, "unexpected coordinate of the cube")
+    always = {"y": False, "x": False}      # is the coordinate SET whatever the cube carries?
+
+    def scan(stmts, conditional):
+        nonlocal oy, ox
+        for st in stmts:
+            if isinstance(st, ast.Assign) and isinstance(st.targets[0], ast.Subscript) \
+                    and ast.unparse(st.targets[0].value) == f"{cube}.coords":
+                k = _const_str(st.targets[0].slice)
+                if k == "y":
+                    oy = _origin(st.value, env, "y")
+                elif k == "x":
+                    ox = _origin(st.value, env, "x")
+                else:
+                    fail(st, "unexpected coordinate of the cube")
+                if not conditional:
+                    always[k] = True
+            elif isinstance(st, ast.If):
+                # e.g. `if "y" not in cube.coords:` -- the coordinate is only added when the cube has none
+                scan(st.body, True)
+                scan(st.orelse, True)
+            elif isinstance(st, (ast.For, ast.While, ast.With, ast.Try)):
+                fail(st, "unexpected statement in the 3-D branch")
+
+    scan(branch[0].orelse, False)
     if oy is None or ox is None:
         fail(branch[0], "3-D branch must set the y and x coordinates")
+    for st in ast.walk(branch[0]):
+        # coordinates given another way (assign_coords, reindex, drop_vars ...) are not understood
+        if isinstance(st, ast.Call) and isinstance(st.func, ast.Attribute) and st.func.attr in (
+                "assign_coords", "reindex", "reindex_like", "drop_vars", "reset_coords", "reset_index", "set_index", "swap_dims", "rename"):
+            fail(st, "coordinates of the cube changed by a call that is not understood")
     # the dims of the cube are those the array_3d setter enforces
     setters = [n for n in _class(tph, "Photon").body if isinstance(n, ast.FunctionDef) and n.name == "array_3d"
                and any(ast.unparse(d) == "array_3d.setter" for d in n.decorator_list)]
@@ -563,7 +599,8 @@ def _readouts(repo: Path) -> dict:
             dims = _str_tuple(_resolve(n.comparators[0], senv))
     if dims is None:
         fail(setters[0], "the array_3d setter must check value.dims")
-    out["KPhoton3"] = dict(dims=dims, origin=(oy, ox), copies=_copies(src, env), cast=_keeps_dtype(src, env, fn))
+    out["KPhoton3"] = dict(dims=dims, origin=(oy, ox), copies=_copies(src, env), cast=_keeps_dtype(src, env, fn),
+                           relabel=always["y"] and always["x"])
     return out
 
 
@@ -755,6 +792,7 @@ def render(ex: dict, rp: dict, ro: dict, vis: dict, dbg: dict) -> str:
             "Import ListNotations.\nOpen Scope Z_scope.\n\n"
             "Definition src_tables : tables :=\n"
             f"  {{| tb_copies := {per_kind(lambda r: _cbool(r['copies']))};\n"
+            f"     tb_relabel := {per_kind(lambda r: _cbool(r['relabel']))};\n"
             f"     tb_label := {ex['label']};\n"
             f"     tb_exported := {pairs(ex['exported'])};\n"
             f"     tb_visible := {pairs(vis['visible'])};\n"
@@ -769,7 +807,7 @@ def render(ex: dict, rp: dict, ro: dict, vis: dict, dbg: dict) -> str:
             f"     sf_step_order := {_clist(_cstr(x) for x in rp['step_order'])};\n"
             f"     sf_reset_flag_negated := {_cbool(rp['reset_negated'])};\n"
             f"     sf_fix_var := {_cstr(rp['fix_var'])}; sf_fix_guarded := {_cbool(rp['fix_guarded'])}; "
-            f"sf_fix_target := {_cstr(rp['fix_target'])};\n"
+            f"sf_fix_target := {_cstr(rp['fix_target'])}; sf_fix_keeps_unsigned := {_cbool(rp['fix_keeps_unsigned'])};\n"
             f"     sf_layout := {_clist('(%s, %s)' % (_cstr(k), g) for k, g in rp['layout'])};\n"
             f"     sf_scene_forces_hier := {_cbool(rp['scene_forces_hier'])};\n"
             f"     sf_scene_src := {_cstr(rp['scene_src'])}; sf_data_src := {_cstr(rp['data_src'])}; "
@@ -797,15 +835,15 @@ def translate(repo: Path) -> str:
 
 # the text for the tree as repaired in round 2; used only to keep a model available for the failing-input search
 # when the translation itself fails (the failed translation is already a broken obligation)
-_RO = dict(dims=["y", "x"], origin=(0, 0), copies=True, cast="CastKeep")
+_RO = dict(dims=["y", "x"], origin=(0, 0), copies=True, cast="CastKeep", relabel=True)
 FALLBACK = render(
     dict(exported=[(b, b) for b in BUCKET], label="LAbsolute", time_dim="time"),
     dict(concat_dim="time", concat_order=["accumulated", "step"], first_as_is=True,
          step_order=["reset", "run", "extract", "concat"], reset_negated=True, fix_var="image", fix_guarded=True,
-         fix_target="image", layout=[("/bucket", "GHier"), ("/", "GFlat"), ("/intermediate", "GDebug"), ("/output", "GOutputs"),
+         fix_target="image", fix_keeps_unsigned=True, layout=[("/bucket", "GHier"), ("/", "GFlat"), ("/intermediate", "GDebug"), ("/output", "GOutputs"),
                                      ("/scene", "GAlways"), ("/data", "GAlways")],
          scene_forces_hier=True, scene_src="detector.scene.data", data_src="detector.data", inter_src="detector.intermediate"),
-    dict(KPhoton2=_RO, KPhoton3=dict(dims=["wavelength", "y", "x"], origin=(0, 0), copies=True, cast="CastF64"),
+    dict(KPhoton2=_RO, KPhoton3=dict(dims=["wavelength", "y", "x"], origin=(0, 0), copies=True, cast="CastF64", relabel=True),
          KCharge=_RO, KPixel=_RO, KSignal=_RO, KImage=_RO),
     dict(visible=[(b, b) for b in BUCKET], skip_zero=["charge"], ndim_filter=True),
     dict(ref_before=True, deep=True, compare="allclose", path=["time_idx", "group", "model", "name"]))
